@@ -13,6 +13,8 @@ import os
 import sys
 import traceback
 
+sys.setrecursionlimit(8000)  # resolved origin terms nest deeply (normalisation chains inside helper expansions)
+
 HERE = os.path.dirname(os.path.abspath(__file__))
 sys.path.insert(0, os.path.dirname(HERE))
 
